@@ -229,6 +229,35 @@ def ops_file(cases):
 
 
 # ----------------------------------------------------------------------------- the check
+# hand-picked corners of Python's operators, run first
+CORNERS = [
+    (("equal_to", 1), [True, 1, "1", [1], None]), (("equal_to", [1, [True, {"a": 0}]]), [[True, [1, {"a": False}]], [1, [1, {"a": None}]]]),
+    (("equal_to", {1: "x", "a": 2}), [{True: "x", "a": 2}, {"a": 2, 1: "x"}, {1: "x"}, {1: "x", "a": 2, "b": 3}]),
+    (("greater_than", [1, 2]), [[1, 2, 0], [1, 2], [1], [1, "a"], ["a"], [2, None], []]),
+    (("less_than_or_equal_to", [1, "a"]), [[1, "a"], [1, "b"], [1, 2], [True, "a", 0], [0, None]]),
+    (("less_than", "ab"), ["a", "ab", "abc", "b", "", "\u00e9", 1]), (("greater_than_or_equal_to", True), [1, 0, True, False, 2, None, "1"]),
+    (("is_between", 0, 2), [0, 2, 3, -1, True, False, None, "1", [1]]), (("is_between", 2, 0), [1, "a", None]),
+    (("is_in", [1, "a", [2]]), [True, 1, "a", [2], [True], 2, None]), (("has_items", [True, "a"]), [[1, "a"], ["a"], {"a": 0, 1: 0}, {"a": 0}, "xa", "a", 5]),
+    (("has_items", [[1]]), [{"a": 1}, [[1]], [[True]]]), (("has_items", []), [5, None, [], "x"]),
+    (("has_only_items", [1, 1, 2]), [[1, 2, 1], [True, 2, 1], [1, 2], [1, 1, 2, 2], {1: 0, 2: 0}, "112", 7]),
+    (("has_only_items", ["a", "b"]), ["ab", "ba", "abc", {"b": 1, "a": 2}, ["b", "a"]]),
+    (("has_entry", -1, ("$", 3)), [[1, 2, 3], [3], [], "ab3", {-1: 3}, {"-1": 3}, 3]), (("has_entry", True, None), [[1, 2], [1], {1: 0}, {True: 0}, "ab", "a"]),
+    (("has_entry", ["a", 0, "b"], ("$", 1)), [{"a": [{"b": 1}]}, {"a": [{"b": 2}]}, {"a": {"0": {"b": 1}}}, {"a": {0: {"b": True}}}, {"a": []}]),
+    (("has_entry", [[1]], None), [{"a": 1}, [[1]], {}]), (("has_entry", [], ("is_dict", None)), [{}, [], 1]),
+    (("has_length", ("$", 2)), ["ab", [1, 2], {"a": 1, "b": 2}, 2, None, True, "\u00e9\u00e9"]), (("has_length", ("greater_than", "a")), ["ab", [1]]),
+    (("has_item", ("greater_than", 1)), [[0, 2, "a"], [0, "a", 2], ["a"], [], {"a": 1}, {2: 0}, "ab", 3]),
+    (("has_all_items", ("greater_than", 1)), [[2, 3], [2, 0, "a"], [2, "a", 0], [], "ab", {3: 0, 4: 0}, None]),
+    (("all_of", [("is_str", None), ("greater_than", "a")]), [1, "b", "a", None]), (("all_of", [("greater_than", "a"), ("is_str", None)]), [1, "b", "a"]),
+    (("any_of", [("is_integer", None), ("greater_than", "a")]), [1, True, "b", None]), (("any_of", [("greater_than", "a"), ("is_integer", None)]), [1, "b"]),
+    (("is_integer", ("$", 1)), [1, True, 1 << 70, "1"]), (("is_bool", ("$", 1)), [True, 1, False]), (("is_true",), [True, 1, False, None]),
+    (("is_list", ("has_length", ("$", 0))), [[], "", {}, [0]]), (("is_dict", ("has_entry", "a", None)), [{"a": 1}, ["a"], {}]),
+    (("starts_with", ""), ["", "a", 1, None]), (("ends_with", "ab"), ["ab", "cab", "abc", "b", ["a", "b"]]), (("contains_string", "a\nb"), ["xa\nby", "ab", 5]),
+    (("not_", ("not_", ("greater_than", 1))), [2, 0, "a"]), (("not_", ("any_of", [])), [1]), (("hide", ("any_of", [("hide", ("equal_to", 1))])), [1, 2]),
+    (("any_of", [("hide", ("equal_to", 1)), ("$", 2)]), [1, 2, 3]), (("any_of", [("has_all_items", ("$", 1)), ("$", 2)]), [[1], [3], 2, 5]),
+    (("not_", ("has_all_items", ("$", 1))), [[1, 1], [1, 2], 5]), (("any_of", [("not_", ("has_all_items", ("$", 1)))]), [[1], [2]]),
+    (("override", ("any_of", []), ""), [1]), (("is_", ("$", None)), [None, 0, False]), (("has_entry", "a", ("$", None)), [{"a": 5}, {"b": 1}]),
+]
+
 F8_WITNESS = ("any_of", [("hide", ("equal_to", 1)), ("hide", ("equal_to", 2))])
 
 
@@ -257,10 +286,13 @@ def check(run):
     mcases = []
     for i in range(n_expr):
         depth = run.rng.choice([0, 1, 1, 2, 2, 3, 3, 4])
-        e = G.gen_expr(run.rng, depth, opts)
-        m = G.build(e)
         dom = G.value_domain(run.rng, 29)
-        vals = run.rng.sample(dom, 8) + [G.gen_value(run.rng) for _ in range(4)]
+        if i < len(CORNERS):
+            e, vals = CORNERS[i]
+        else:
+            e = G.gen_expr(run.rng, depth, opts)
+            vals = run.rng.sample(dom, 8) + [G.gen_value(run.rng) for _ in range(4)]
+        m = G.build(e)
         obs = [(v, G.observe_matches(m, v)) for v in vals]
         mcases.append((e, obs))
         run.evaluations += len(vals)
@@ -363,5 +395,10 @@ def replay(path):
         hit = operations_oracle(rp["op"], e, v, rp["quiet"], o)
         print(json.dumps({"op": rp["op"], "expr": rp["expr"], "value": rp["value"], "observed": o, "oracle": hit}, default=str))
         return 1 if hit else 0
+    if r.get("kind") == "no-failing-input-found":
+        # a broken proof / translator / correspondence without a failing input: re-run the whole check on the current tree
+        import subprocess
+        rc = subprocess.call([os.path.join(lib.ROOT, "check"), "C16", "--tier", "quick"])
+        return 1 if rc else 0
     print("nothing to replay in", path)
     return 2
